@@ -53,3 +53,34 @@ def BreakerSpec.step (p : BreakerCfg) (a : BreakerSpec) (t t' : Int) (okOutcome 
     else ({ consec := a.consec + 1, last := t' }, .failed)
 
 end Rpcx
+
+namespace Rpcx
+open Rpcx.Gen
+
+/-! ### the discovery client's use of the breaker (xClient.getCachedClient / generateClient)
+  Before touching its client cache the xclient asks the server's breaker `Ready()`; a refusal is
+  `ErrBreakerOpen` and nothing is dialled.  A dial that fails records `Fail()`; a dial that succeeds
+  records nothing (the breaker of a server counts connection failures only). -/
+
+inductive DialRes | open | dialedOk | dialedFail
+deriving DecidableEq, Repr
+
+/-- one connection attempt to a server with no cached client: `t` = clock at the readiness check,
+    `t'` = clock when the failed dial is recorded -/
+def Dial.step (p : BreakerCfg) (s : BreakerSt) (t t' : Int) (dialOk : Bool) : BreakerSt × DialRes :=
+  let r := Breaker.ready s p.threshold p.window t
+  if !r.2 then (r.1, .open)
+  else if dialOk then (r.1, .dialedOk)
+  else (Breaker.fail r.1 t', .dialedFail)
+
+def Dial.run (p : BreakerCfg) : BreakerSt → List (Int × Int × Bool) → BreakerSt × List DialRes
+  | s, [] => (s, [])
+  | s, (t, t', o) :: rest =>
+    let (s1, r) := Dial.step p s t t' o
+    let (s2, rs) := Dial.run p s1 rest
+    (s2, r :: rs)
+
+/-- how many of the attempts reached the network -/
+def Dial.dials (rs : List DialRes) : Nat := (rs.filter (· != .open)).length
+
+end Rpcx
